@@ -25,14 +25,15 @@ import (
 // Real AF_NETLINK sockets: NETLINK_ROUTE echoes rejected requests verbatim.
 
 type c18Case struct {
-	Kind    string `json:"kind"` // frame | spoof | parse
-	Type    uint16 `json:"type,omitempty"`
-	Flags   uint16 `json:"flags,omitempty"`
-	Payload []byte `json:"payload,omitempty"`
-	Dgram   []byte `json:"datagram,omitempty"`
-	Mcast   bool   `json:"multicast,omitempty"`
-	ReadBuf int    `json:"read_buffer_bytes,omitempty"` // size of the caller-supplied read buffer (frame)
-	Second  bool   `json:"second_socket,omitempty"`     // sent through a client opened while another one is open
+	Kind      string `json:"kind"` // frame | spoof | parse
+	Type      uint16 `json:"type,omitempty"`
+	Flags     uint16 `json:"flags,omitempty"`
+	Payload   []byte `json:"payload,omitempty"`
+	Dgram     []byte `json:"datagram,omitempty"`
+	Mcast     bool   `json:"multicast,omitempty"`
+	ReadBuf   int    `json:"read_buffer_bytes,omitempty"` // size of the caller-supplied read buffer (frame)
+	Second    bool   `json:"second_socket,omitempty"`     // sent through a client opened while another one is open
+	NoRequest bool   `json:"flags_without_nlm_f_request,omitempty"`
 }
 
 func rawParser(b []byte) ([]syscall.NetlinkMessage, error) {
@@ -461,6 +462,16 @@ func c18Run(c *mon.Ctx) {
 	for i := 0; i < c.Pick(1500, 60000); i++ {
 		cases = append(cases, &c18Case{Type: uint16(256 + r.Intn(65536-256)), Flags: uint16(r.Intn(65536)) | uapi.NlmFRequest, Payload: r.Bytes(r.Intn(300))})
 	}
+	// flags WITHOUT NLM_F_REQUEST: the kernel does not process such a message but still acknowledges it when
+	// NLM_F_ACK is set, echoing the header it received (types stay outside 16..255 all the same)
+	for i := 0; i < c.Pick(300, 6000); i++ {
+		fl := (uint16(r.Intn(65536)) | uapi.NlmFAck) &^ uapi.NlmFRequest
+		typ := uint16(256 + r.Intn(65536-256))
+		if i%4 == 0 {
+			typ = uint16(r.Intn(16))
+		}
+		cases = append(cases, &c18Case{Type: typ, Flags: fl, Payload: r.Bytes(r.Intn(64)), NoRequest: true})
+	}
 	// The first netlink socket a process opens for a protocol gets the process id as its port id, later
 	// ones get kernel-assigned ids: most frames go through a SECOND client opened while the first is
 	// still open (the usual control-client + receive-client layout), so "the socket's port id" and
@@ -481,6 +492,9 @@ func c18Run(c *mon.Ctx) {
 			if c18Frame(c, cl2, k, &last2) {
 				c.Add("frames_through_a_second_socket", 1)
 			}
+		}
+		if k.NoRequest {
+			c.Add("frames_without_request_flag", 1)
 		}
 		c.Add("evaluations", 1)
 		c.Add("frames_echoed", 1)
@@ -529,7 +543,7 @@ func c18Run(c *mon.Ctx) {
 func init() {
 	register(&mon.CheckSpec{
 		ID: "C18", Level: "exploration",
-		Rule: "cases = (a,c) requests sent with NetlinkClient.Send on a real NETLINK_ROUTE socket - types 0..15 with NLM_F_ACK (header-only echo) and random types in 256..65535 (never 16..255: live rtnetlink operations), flags = any 16 bits | NLM_F_REQUEST, payload lengths 0..8970 (every 37th quick, every length thorough) plus every length 0..64, random short payloads, and clients whose caller-supplied read buffer the reply fills exactly or with 1/4/64 bytes to spare - (most through a second client opened while a first one is open, so the socket's port id differs from the process id) whose NLMSG_ERROR reply, read back with Receive, carries the request as the kernel saw it (length, type, flags, port id, sequence = returned value, payload bytes); (b) N in {2,4,16} goroutines x M sends on one client: per-goroutine increasing, globally distinct, and the recorded {call, return, value} history checked with porcupine against a strictly increasing counter model (direct interval check when porcupine gives up); (d) datagrams of every length 0..64 and random longer ones, arbitrary and ACK-shaped contents, unicast and multicast from a second user-space netlink socket (NETLINK_ROUTE as root, NETLINK_USERSOCK): Receive must return an error and no message, and a later kernel reply must still be received; (e) AuditClient.Receive over the simulated Netlink with datagrams of every length 0..64 and random longer ones ending at a PROT_NONE page. Runs under the race detector; ASan in thorough. distinct_nontrivial = distinct frames, spoofed datagrams, parse inputs and sequence histories.",
+		Rule: "cases = (a,c) requests sent with NetlinkClient.Send on a real NETLINK_ROUTE socket - types 0..15 with NLM_F_ACK (header-only echo) and random types in 256..65535 (never 16..255: live rtnetlink operations), flags = any 16 bits | NLM_F_REQUEST (and any 16 bits | NLM_F_ACK without NLM_F_REQUEST: acknowledged unprocessed, header echoed), payload lengths 0..8970 (every 37th quick, every length thorough) plus every length 0..64, random short payloads, and clients whose caller-supplied read buffer the reply fills exactly or with 1/4/64 bytes to spare - (most through a second client opened while a first one is open, so the socket's port id differs from the process id) whose NLMSG_ERROR reply, read back with Receive, carries the request as the kernel saw it (length, type, flags, port id, sequence = returned value, payload bytes); (b) N in {2,4,16} goroutines x M sends on one client: per-goroutine increasing, globally distinct, and the recorded {call, return, value} history checked with porcupine against a strictly increasing counter model (direct interval check when porcupine gives up); (d) datagrams of every length 0..64 and random longer ones, arbitrary and ACK-shaped contents, unicast and multicast from a second user-space netlink socket (NETLINK_ROUTE as root, NETLINK_USERSOCK): Receive must return an error and no message, and a later kernel reply must still be received; (e) AuditClient.Receive over the simulated Netlink with datagrams of every length 0..64 and random longer ones ending at a PROT_NONE page. Runs under the race detector; ASan in thorough. distinct_nontrivial = distinct frames, spoofed datagrams, parse inputs and sequence histories.",
 		Assumptions: []string{
 			"the running kernel echoes rejected NETLINK_ROUTE requests in NLMSG_ERROR replies (netlink_ack) and delivers user-to-user netlink datagrams for root; if sockets cannot be opened the check is inconclusive, not green",
 			"message types 16..255 are never sent (they are live rtnetlink operations)",
